@@ -42,11 +42,14 @@ def demo_cmd(demo_path, wt):
     return name, f"CARGO_TARGET_DIR={wt}/target timeout 600 {cmd}"
 
 
-def confirm(wt, m, prop):
+def confirm(wt, m, prop, prefix=""):
     src = os.path.join(wt, "_out", m)
     patch = os.path.join(src, "patch.diff")
     demo = os.path.join(src, "demo.rs")
     name, cmd = demo_cmd(demo, wt)
+    if prefix:
+        # e.g. "taskset -c 0-2": a race that only shows when threads share few cores
+        cmd = cmd.replace("timeout 600 cargo", f"timeout 600 {prefix} cargo")
     log = {}
     sh("git checkout -- src && rm -rf tests", wt)
     os.makedirs(os.path.join(wt, "tests"), exist_ok=True)
@@ -113,6 +116,6 @@ def detect(seed, checks):
 
 if __name__ == "__main__":
     if sys.argv[1] == "confirm":
-        confirm(sys.argv[2], sys.argv[3], sys.argv[4])
+        confirm(sys.argv[2], sys.argv[3], sys.argv[4], " ".join(sys.argv[5:]))
     elif sys.argv[1] == "detect":
         detect(sys.argv[2], sys.argv[3:])
